@@ -17,6 +17,7 @@ code as found, kept as the negative witness `f6_discharge_violates_contract`.
 -/
 import Macaroon.Lemmas.Bundle
 import Macaroon.Lemmas.Refine
+import Macaroon.Lemmas.ReadsBack
 import Macaroon.Props.C04
 import Macaroon.Props.C19
 import Macaroon.Props.C03
@@ -222,7 +223,9 @@ theorem filter_predicates (pl : Bytes) (ts : List Tok) :
 
 /-- `Attenuate` is all or nothing (the model defines it where the text printed for a new token reads
 back as the macaroon stored for it, `Bundle.readsBack`, and fails closed elsewhere — e.g. on a caveat
-whose resource set is not in canonical order, a value with no Go counterpart): on any failure the bundle
+whose resource set is not in canonical order, a value with no Go counterpart; the guard is exactly
+well-formedness and never fires on well-formed input: `readsBack_iff_wellformed`,
+`attenuate_defined_of_wellformed` below): on any failure the bundle
 is what it was — the WHOLE token list,
 and a `Tok.verified` carries its verified caveat set, so the verified sets (what `Validate`,
 `AllowsAccess`, `IsForOrg` look at) are covered as well as the printed text
@@ -667,6 +670,108 @@ theorem select_shares_objects (pl : Bytes) (s : Str) (m : M) (cs : CS) (items : 
   simp [HBundle.select, Filter.mask, applyMask, HBundle.view, Heap.view, Heap.tok, Heap.u, Heap.v, HBundle.attenuate,
     Bundle.attenuateTs, isPermAt, Tok.mac?, hloc, Bundle.attTok, hatt, Heap.storeAll, Heap.store]
 
+/-! ### the `readsBack` guard is well-formedness, and never the reason for a failure -/
+
+open Macaroon.Lemmas.ReadsBack in
+/-- **readsBack_of_wellformed.**  `wfMac` is a decidable predicate on model macaroons: nonce, location
+and tail within the lengths of the wire format, every caveat `WFCav` (resource sets as SORTED
+association lists without duplicate keys — a Go map printed by the sorting encoder —, unregistered
+caveats only outside the registry and with a one-value body, lengths `< 2³²`), fewer than 2³¹ caveats,
+canonical nesting within the decoder's budget, proof state "encoded".  A well-formed token prints
+without error or state change, and the text printed decodes to the token itself. -/
+theorem readsBack_of_wellformed (m : M) (h : wfMac m = true) :
+    Concrete.encode m = (m, some (encMac (Concrete.toWire m))) ∧ readsBack (encMac (Concrete.toWire m)) m = true :=
+  Lemmas.ReadsBack.readsBack_of_wellformed m h
+
+open Macaroon.Lemmas.ReadsBack in
+/-- **readsBack_iff_wellformed** (so `wfMac` is also NECESSARY): for a token that prints as `bytes` without a
+state change — the situation at both guards — the guard holds exactly if the token is well formed. -/
+theorem readsBack_iff_wellformed (m : M) (bytes : Bytes) (h : Concrete.encode m = (m, some bytes)) :
+    readsBack bytes m = true ↔ wfMac m = true :=
+  Lemmas.ReadsBack.readsBack_iff_wellformed m bytes h
+
+open Macaroon.Lemmas.ReadsBack in
+/-- the negative witness for the sortedness clause: the token with the resource set `[("b",1),("a",1)]`
+is not well formed, the one with `[("a",1),("b",1)]` is; they print the same text, which reads back
+as the sorted one only -/
+theorem wf_is_necessary :
+    wfMac unsortedTok = false ∧ wfMac sortedTok = true ∧
+    (Concrete.encode unsortedTok).2 = (Concrete.encode sortedTok).2 ∧
+    (∀ bytes, (Concrete.encode unsortedTok).2 = some bytes → readsBack bytes unsortedTok = false ∧ readsBack bytes sortedTok = true) :=
+  ⟨by decide, by decide, unsorted_resource_set_does_not_read_back.1, unsorted_resource_set_does_not_read_back.2.2.2.1⟩
+
+open Macaroon.Lemmas.ReadsBack in
+/-- **attenuate_defined_of_wellformed.**  Per token (`attMac`) and per bundle: on well-formed permission
+tokens, with well-formed arguments (`itemOk`: a `WFCav` caveat, or a new third-party caveat whose
+location, ticket and verifier key fit the wire format), whenever `Add` itself succeeds and its result
+has fewer than 2³¹ caveats nesting within the decoder's budget (`AttOk`), `Attenuate` is defined —
+the guard does not fire —, stores exactly what `Add` gives, printed, and that is well formed again. -/
+theorem attenuate_defined_of_wellformed (items : List (AddItem Bytes)) (hi : ∀ it ∈ items, itemOk it = true) :
+    (∀ m, wfMac m = true → AttOk items m →
+      ∃ c', add m items = (c', none) ∧
+        Bundle.attMac items m = some (macString (encMac (Concrete.toWire (encodeState c'))), encodeState c',
+          c'.cavs.drop m.cavs.length) ∧ wfMac (encodeState c') = true) ∧
+    (∀ b : Bundle, (∀ t ∈ b.ts, isPermAt b.permLoc t = true → ∀ m, t.mac? = some m → wfMac m = true ∧ AttOk items m) →
+      (b.attenuate items).2 = false) :=
+  ⟨fun m hm hok => attMac_defined items m hm hi hok, fun b h => Lemmas.ReadsBack.attenuate_defined_of_wellformed b items hi h⟩
+
+open Macaroon.Lemmas.ReadsBack in
+/-- **discharge_defined_of_wellformed.**  Per ticket (`dischargeOne`) and per bundle: a ticket that opens,
+a callback that answers with well-formed caveats, location / ticket / nonce randomness below 2³² bytes,
+`Add` succeeding within the size limits (`DisOk`): `Discharge` is defined — the guard does not fire — and
+mints a well-formed token. -/
+theorem discharge_defined_of_wellformed (loc ka : Bytes) (cb : Bundle.Discharger) :
+    (∀ ticket rnd dk tcavs items, Crypto.openTicket ka ticket = TicketResult.ok dk tcavs → cb tcavs = some items →
+      ticket.length < 2 ^ 32 → rnd.length < 2 ^ 32 → loc.length < 2 ^ 32 → (∀ it ∈ items, itemOk it = true) →
+      AttOk items (mint dk ticket loc rnd true) →
+      ∃ dm', add (mint dk ticket loc rnd true) items = (dm', none) ∧
+        Bundle.dischargeOne loc ka cb ticket rnd =
+          some (.unverified (macString (encMac (Concrete.toWire (encodeState dm')))) (encodeState dm')) ∧
+        wfMac (encodeState dm') = true) ∧
+    (∀ (sc : Bundle.DischargeScope) (b : Bundle) (rnds : List Bytes),
+      (∀ tr ∈ Bundle.withRnd (Bundle.ticketsInScope sc b.permLoc b.ts loc) rnds, DisOk loc ka cb tr.1 tr.2) →
+      (Bundle.dischargeWith sc b loc ka cb rnds).2 = false) :=
+  ⟨fun ticket rnd dk tcavs items ho hc ht hr hl hi hok => dischargeOne_defined loc ka cb ticket rnd dk tcavs items ho hc ht hr hl hi hok,
+   fun sc b rnds h => Lemmas.ReadsBack.discharge_defined_of_wellformed sc b loc ka cb rnds h⟩
+
+open Macaroon.Lemmas.ReadsBack in
+/-- **wf_preserved.**  `WFB b`: every macaroon token of the bundle is well formed.  `Attenuate` and
+`Discharge` keep it UNCONDITIONALLY (whatever the arguments, success or failure: what they store passed
+the guard, and the guard is well-formedness); `Verify` keeps every token's macaroon; `Filter` / `Select`
+keep a sub-list; `AddTokens` / `ParseBundle` add parsed tokens, for which see `parsed_token_cases`. -/
+theorem wf_preserved (b : Bundle) (hb : WFB b) :
+    (∀ items, WFB (b.attenuate items).1) ∧
+    (∀ sc loc ka cb rnds, WFB (Bundle.dischargeWith sc b loc ka cb rnds).1) ∧
+    (∀ o, WFB (b.verifyBy o)) ∧
+    (∀ f, WFB (b.filter f) ∧ WFB (b.select f)) ∧
+    (∀ hdr, (∀ t ∈ parseToks hdr, ∀ m, t.mac? = some m → wfMac m = true) → WFB (b.addTokens hdr).1) :=
+  ⟨fun items => wf_attenuate b items hb, fun sc loc ka cb rnds => wf_discharge sc b loc ka cb rnds hb,
+   fun o => wf_verifyBy b o hb, fun f => wf_filter b f hb, fun hdr hnew => wf_addTokens b hdr hb hnew⟩
+
+open Macaroon.Lemmas.ReadsBack in
+/-- **parsed_token_cases.**  What `macaroon.Decode` returns is canonical in shape (`decoded_wf_iff`: in
+encoded state, and `WFMac` — sorted duplicate-free resource sets etc. — as soon as it can be printed at
+all).  Every macaroon token of a parsed header is therefore well formed, EXCEPT two kinds on which
+`Attenuate` fails before it reaches the guard, for every argument list:
+(a) a token holding a caveat that cannot be printed (an unregistered caveat whose body was `nil`): Go's
+    `Encode` fails as well;
+(b) a token that prints, but whose canonical form nests deeper than the model decoder's budget of 200
+    levels (the canonical form may nest up to two levels deeper than the bytes received; the Go decoder
+    has no budget): the clone step `Decode(Encode(m))` fails in the model. -/
+theorem parsed_token_cases (hdr : Str) (t : Tok) (ht : t ∈ parseToks hdr) (m : M) (hm : t.mac? = some m) :
+    wfMac m = true ∨
+    (m.cavs.all encodable = false ∧ ∀ items, Bundle.attMac items m = none) ∨
+    (m.cavs.all encodable = true ∧ defaultFuel < 1 + max 1 (encDepth m.cavs) ∧ ∀ items, Bundle.attMac items m = none) :=
+  Lemmas.ReadsBack.parsed_token_cases hdr t ht m hm
+
+open Macaroon.Lemmas.ReadsBack in
+/-- a decoded token is in encoded state, has the wire shape as soon as all its caveats can be printed,
+and is well formed exactly if moreover its canonical form nests within the budget -/
+theorem decoded_wf_iff (bs : Bytes) (m : M) (h : Concrete.decode bs = some m) :
+    m.newProof = false ∧ (m.cavs.all encodable = true → WFMac (Concrete.toWire m)) ∧
+    (wfMac m = true ↔ (m.cavs.all encodable = true ∧ 1 + max 1 (encDepth m.cavs) ≤ defaultFuel)) :=
+  Lemmas.ReadsBack.decoded_wf_iff bs m h
+
 end Macaroon.Props.C13
 
 #print axioms Macaroon.Props.C13.bundle_decision
@@ -724,3 +829,11 @@ end Macaroon.Props.C13
 #print axioms Macaroon.Props.C13.clone_shares_nothing
 #print axioms Macaroon.Props.C13.parsed_bundle_owns_its_objects
 #print axioms Macaroon.Props.C13.select_shares_objects
+#print axioms Macaroon.Props.C13.readsBack_of_wellformed
+#print axioms Macaroon.Props.C13.readsBack_iff_wellformed
+#print axioms Macaroon.Props.C13.wf_is_necessary
+#print axioms Macaroon.Props.C13.attenuate_defined_of_wellformed
+#print axioms Macaroon.Props.C13.discharge_defined_of_wellformed
+#print axioms Macaroon.Props.C13.wf_preserved
+#print axioms Macaroon.Props.C13.parsed_token_cases
+#print axioms Macaroon.Props.C13.decoded_wf_iff
